@@ -59,7 +59,7 @@ def make_table(n, tseed, comma_ok=True):
     for i in range(n):
         ln = int(rng.integers(0, 6))
         sv.append(alpha[int(rng.integers(0, len(alpha)))] + "".join(tail[int(j)] for j in rng.integers(0, len(tail), ln))
-                  + str(int(suf[i])))
+                  + "_" + str(int(suf[i])))       # "_<unique int>": injective whatever digits the random tail ends with
     bv = rng.random(n) < 0.5
     df = pd.DataFrame({"id": np.arange(n, dtype=np.int64), "iv": iv.astype(np.int64), "fv": fv.astype(np.float64),
                        "sv": pd.Series(sv, dtype=object if style == 1 else "str"), "bv": bv.astype(bool)})
